@@ -52,6 +52,7 @@ def model_check_sheet(maxrows):
         raise common.MachineryError("MC_Sheet printed no sequences")
     res["sequences"] = len(seqs)
     res["well_formed"] = sum(1 for _, s in seqs if s == "ok")
+    seqs.sort(key=lambda x: json.dumps(x))       # (TLC's workers print in no particular order)
     return res, seqs, poolrows
 
 
